@@ -75,7 +75,7 @@ pub fn structured(data: &[u8]) -> Result<(), Failure> {
         return Ok(());
     }
     let g = glue();
-    let which = data[0] % 5;
+    let which = data[0] % 6;
     let mut case = Case::new(Choices::from_bytes(&data[1..]), &g.excluded, false);
     c08::pipeline_case(&mut case, "structured", which, &g.cfgs)
 }
@@ -86,7 +86,7 @@ pub fn structured_verbose(data: &[u8]) -> Result<(), Failure> {
         return Ok(());
     }
     let g = glue();
-    let which = data[0] % 5;
+    let which = data[0] % 6;
     let mut case = Case::new(Choices::from_bytes(&data[1..]), &g.excluded, true);
     let t0 = std::time::Instant::now();
     let t = c08::gen_texts(&mut case, which);
